@@ -284,6 +284,3 @@ func runC11(tier, scratch, replay string, nworkers int) *merged {
 	return m
 }
 
-func runC05E3(tier, scratch, replay string, nworkers int) *merged {
-	return newMerged()
-}
